@@ -66,7 +66,7 @@ func loadProgram(solverTimeoutMs int) (*loaded, error) {
 		Env:     goEnv(),
 		Overlay: overlay,
 	}
-	patterns := []string{harnessPkg}
+	patterns := []string{harnessPkg, "github.com/wkhere/bcl/cmd/bcl"}
 	initial, err := packages.Load(cfg, patterns...)
 	if err != nil {
 		return nil, err
